@@ -37,7 +37,10 @@ def sframe(ftype, payload):
 
 ACK, NAK, ABORT = b"\x5a\xa1", b"\x5a\xa2", b"\x5a\xa3"
 IN_TAGS, OUT_TAGS, VALUE_TAGS = {0x03, 0x10, 0x17}, {0x04, 0x08, 0x14}, {0x07, 0x0F}
-PROPS = {1: [0x4B030100], 11: [0], 12: [0x40], 7: [0xFFFF]}  # current version, max packet size (set per run), ...
+# the twin's properties, each in the shape the bootloader defines for it (unknown properties are answered with kStatus_UnknownProperty)
+PROPS = {1: [0x4B030100], 2: [0x1F], 3: [0], 4: [0x80000], 5: [0x1000], 7: [0xFFFF], 10: [1], 11: [0], 12: [0x1000, 0x1FFF, 0x20000000, 0x20000FFF],
+         14: [0x20000000], 15: [0x10000], 16: [0x12345678], 17: [0], 18: [1, 2, 3, 4], 24: [0x54010000]}
+UNKNOWN_PROPERTY = 10300
 
 
 class Core:
@@ -94,7 +97,10 @@ class Core:
             out.append(("resp", 0xA0, 0, [tag], True))
         elif shape == "value":
             if tag == 0x07:
-                out.append(("resp", 0xA7, 0, self.props.get(params[0], [0]), True))
+                if params[0] in self.props:
+                    out.append(("resp", 0xA7, 0, self.props[params[0]], True))
+                else:
+                    out.append(("resp", 0xA7, UNKNOWN_PROPERTY, [0], True))
             else:
                 out.append(("resp", 0xAF, 0, [4, self.once.get(params[0] & 0xFFFFFF, 0)], True))
         elif shape == "in":
@@ -371,7 +377,28 @@ OPS = {
     "write_memory": ("out", 0x04, ["addr", "data", "mem"]), "receive_sb_file": ("out", 0x08, ["data"]), "fuse_program": ("out", 0x14, ["addr", "data", "mem"]),
     "kp_set_user_key": ("out", 0x15, ["small", "data"]), "kp_write_key_store": ("out", 0x15, ["data"]),
     "load_image": ("raw", 0, ["data"]),
+    # property report of the device, plain and after the host interpreted a property for a family with its own property table (history independence)
+    "get_property_list": ("value", 0x07, []), "get_property_list_after_family_parse": ("value", 0x07, []),
 }
+REPORT_OPS = ("get_property_list", "get_property_list_after_family_parse")
+REPORT_REF = {}      # packet size -> reference description, taken in the parent process before any family-specific parsing
+
+
+def describe(props):
+    return [[int(p.tag), str(p.name), str(p.to_str())] for p in props]
+
+
+def report_reference(mps):
+    """The property report of a fresh twin as a fresh interpreter state describes it."""
+    from spsdk.mboot.mcuboot import McuBoot
+    from spsdk.mboot.protocol.bulk_protocol import MbootBulkProtocol
+
+    twin = Twin("hid", mps, None, None)
+    proto = MbootBulkProtocol(twin)
+    proto.identifier = "twin"
+    mb = McuBoot(proto)
+    mb.open()
+    return describe(mb.get_property_list())
 
 
 def payload(n, salt):
@@ -439,7 +466,17 @@ def do_call(mb, twin, op, length, salt, r=None):
             want = bytes(core.mem[A[0]:A[0] + length])
         if op == "kp_read_key_store":
             want = core.keystore
-        if op == "efuse_program_once_verify":
+        if op in REPORT_OPS:
+            if op.endswith("family_parse"):
+                from spsdk.mboot.properties import parse_property_value
+
+                for fam in ("kw45b41z8", "kw47b42zb7", "mcxa156"):
+                    try:
+                        parse_property_value(0x0A, [1], None, fam)
+                    except SPSDKError:
+                        pass
+            r_ = mb.get_property_list()
+        elif op == "efuse_program_once_verify":
             r_ = mb.efuse_program_once(A[0], A[1], verify=True)
         elif op == "reset":
             r_ = mb.reset(timeout=0, reopen=True)
@@ -453,7 +490,10 @@ def do_call(mb, twin, op, length, salt, r=None):
                 res["dataExact"] = bytes(r_) == want[:len(r_)] and len(r_) <= len(want)
                 res["dataLen"] = len(r_)
         elif shape == "value":
-            if op == "get_property":
+            if op in REPORT_OPS:
+                res["val"] = "values" if r_ else "none"
+                res["valuesExact"] = describe(r_) == REPORT_REF.get(twin.mps)
+            elif op == "get_property":
                 res["val"] = "values" if r_ is not None else "none"
                 res["valuesExact"] = r_ == core.props.get(A[0], [0])
             elif op == "flash_read_once":
@@ -578,7 +618,11 @@ def run(tier):
 
     jobs = []
     mps_menu = [32, 64] if tier == "quick" else [32, 64, 200]
-    ops_by_shape = {sh: [op for op, spec in OPS.items() if spec[0] == sh and op != "kp_read_key_store"] for sh in ("cmd", "value", "in", "out")}
+    ops_by_shape = {sh: [op for op, spec in OPS.items() if spec[0] == sh and op != "kp_read_key_store" and op not in REPORT_OPS] for sh in ("cmd", "value", "in", "out")}
+    for m_ in mps_menu:
+        REPORT_REF[m_] = report_reference(m_)
+        if len(REPORT_REF[m_]) < 10:
+            raise Machinery(f"property report of the twin has only {len(REPORT_REF[m_])} entries")
     jid = 0
     # fault-free histories: every op alone on a fresh object (packet size not cached) and after others; all length classes
     for transport in ("serial", "hid"):
@@ -591,6 +635,12 @@ def run(tier):
                             for _rep in range(4 if shape in ("cmd", "value") else 1):      # several draws from the argument value classes
                                 jid += 1
                                 jobs.append((f"nf-{jid}", transport, mps, [(op, ln)], None, None, preset))
+            # the device's property report: alone, twice, and around a family-specific interpretation (fault-free only: under a fault the list is
+            # documented to leave out what it could not read)
+            for calls in ([("get_property_list", 0)], [("get_property_list", 0), ("get_property_list_after_family_parse", 0), ("get_property_list", 0)],
+                          [("get_property_list_after_family_parse", 0), ("get_property", 0), ("get_property_list", 0)]):
+                jid += 1
+                jobs.append((f"nf-{jid}", transport, mps, calls, None, None, True))
             for ln in (1, mps, 2 * mps + 3):
                 jid += 1
                 jobs.append((f"nf-{jid}", transport, mps, [("load_image", ln)], None, None, True))
